@@ -15,7 +15,7 @@ R-CFBFLOW  mini-stream cutoff and chain truncation
 R-TBL      table header/totals adjustments use their own field
 R-RANGEPRE Range::range is only called with start <= end established
 """
-from .kit import (flat_stmts, body_stmts, cond_exprs, walk, walk_anc, walk_k, unwrap, peel, loc, callee, callee_decl, path_local, path_def, lit_value, pat_bindings,
+from .kit import (flat_stmts, body_stmts, cond_exprs, let_init, walk, walk_anc, walk_k, unwrap, peel, loc, callee, callee_decl, path_local, path_def, lit_value, pat_bindings,
                   pat_is_catchall, pat_variant, pat_covers, norm, norm_ty, field_chain, shape, always_leaves, in_macro)
 from .r_tables import pat_keys, variants_built, key_matches
 from .r_xml import event_matches, guard_literals, _arm_event_variant
@@ -618,21 +618,27 @@ SST_TABLES = [
     ("xlsx::Xlsx::read_styles", ("self", "formats"), "xlsx cellXfs"),
     ("xlsb::Xlsb::read_shared_strings", ("self", "strings"), "xlsb shared strings"),
     ("xlsb::Xlsb::read_styles", ("self", "formats"), "xlsb cellXfs"),
-    ("xls::parse_sst", ("local", "sst"), "xls SST"),
-    ("xls::Xls::parse_workbook", ("local", "xfs"), "xls XF table"),
-    ("xls::Xls::parse_workbook", ("local", "defined_names"), "xls Lbl (defined name) table"),
-    ("xlsb::Xlsb::read_workbook", ("local", "defined_names"), "xlsb BrtName table"),
+    # local tables are designated by their name *or* by their type (a renamed local keeps its role)
+    ("xls::parse_sst", ("local", "sst", "alloc::vec::Vec<alloc::string::String>"), "xls SST"),
+    ("xls::Xls::parse_workbook", ("local", "xfs", "alloc::vec::Vec<u16>"), "xls XF table"),
+    ("xls::Xls::parse_workbook", ("local", "defined_names", "alloc::vec::Vec<(alloc::string::String, (core::option::Option<usize>, alloc::string::String))>"), "xls Lbl (defined name) table"),
+    ("xlsb::Xlsb::read_workbook", ("local", "defined_names", "alloc::vec::Vec<(alloc::string::String, alloc::string::String)>"), "xlsb BrtName table"),
 ]
 
 MANY = "many"
 
 
 def _is_table(e, tab):
-    kind, name = tab
+    kind, name = tab[0], tab[1]
     fc = field_chain(e)
     if kind == "self":
         return fc is not None and fc[0] == "self" and fc[1] == [name]
-    return fc is not None and fc[0] == name and not fc[1]
+    if fc is not None and fc[0] == name and not fc[1]:
+        return True
+    if len(tab) > 2 and fc is not None and not fc[1]:
+        t = (peel(e).get("ty") or "").replace("&mut ", "").replace("&", "")
+        return t == tab[2]
+    return False
 
 
 def _count_paths(e, tab, targets):
@@ -1225,8 +1231,17 @@ def r_cont(ctx, rep):
                             flag_lids.add(p["res"]["lid"])
             for a in walk_k(i["then"], "Assign"):
                 pl = path_local(a["l"])
-                if pl and pl[1] in flag_lids and _index_of(a["r"], data_fc, 0) and any(b["op"] == "&" and lit_value(b["r"]) == 1 for b in walk_k(a["r"], "Binary")):
-                    flag_ok = True
+                if pl and pl[1] in flag_lids and any(b["op"] == "&" and lit_value(b["r"]) == 1 for b in walk_k(a["r"], "Binary")):
+                    if _index_of(a["r"], data_fc, 0):
+                        flag_ok = True
+                    else:
+                        # `let flags = r.data[0]; r.data = &r.data[1..]; high_byte = flags & 1 != 0;`
+                        for p_ in walk_k(a["r"], "Path"):
+                            l_ = let_init(i["then"], p_)
+                            if l_ is not None and _index_of(l_["init"], data_fc, 0):
+                                adv = [x for x in walk_k(i["then"], "Assign") if field_chain(x["l"]) == data_fc]
+                                if all((l_["span"]["l"], l_["span"]["c"]) < (x["span"]["l"], x["span"]["c"]) for x in adv):
+                                    flag_ok = True
                 if field_chain(a["l"]) == data_fc and _index_of(a["r"], data_fc, ("from", 1)):
                     adv_ok = True
             if flag_ok:
@@ -1261,7 +1276,10 @@ def r_cont(ctx, rep):
                         seq.append(("dbcs", None))
                     elif x.get("name") == "skip" and c.endswith("Record::skip"):
                         arg = unwrap(x["args"][0])
-                        if arg.get("k") == "Binary" and arg["op"] == "*" and lit_value(arg["r"]) == 4:
+                        l_ = let_init(fn.body, arg)
+                        if l_ is not None and unwrap(l_["init"]).get("k") == "Binary":
+                            arg = unwrap(l_["init"])      # `let run_bytes = c_run * 4; r.skip(run_bytes)?`
+                        if arg.get("k") == "Binary" and arg["op"] == "*" and (lit_value(arg["r"]) == 4 or lit_value(arg["l"]) == 4):
                             seq.append(("skip", "runs*4:" + str(path_local(arg["l"]) and path_local(arg["l"])[0])))
                         elif path_local(arg):
                             seq.append(("skip", "ext:" + path_local(arg)[0]))
@@ -1284,11 +1302,28 @@ def r_cont(ctx, rep):
             if s_.get("k") == "Let" and s_.get("init") is not None and any(m["name"] == "split_at" for m in walk_k(s_["init"], "MethodCall")):
                 for nm, lid in pat_bindings(s_["pat"]):
                     split_lids.add(lid)
+        # locals holding min(len, self.data.len()): `&self.data[step..]` with such a local is the same re-slicing
+        min_lids = set()
+        for s_ in walk_k(fn.body, "Let"):
+            if s_.get("init") is not None and any((callee(c) or "").endswith("cmp::min") or c.get("name") == "min" for c in walk_k(s_["init"], "Call", "MethodCall")):
+                for nm, lid in pat_bindings(s_["pat"]):
+                    min_lids.add(lid)
+        ok_idx = set()
         for a in walk_k(fn.body, "Assign"):
             if field_chain(a["l"]) == ("self", ["data"]):
                 pl = path_local(a["r"])
-                if not (pl and pl[1] in split_lids):
+                r_ = peel(a["r"])
+                by_min = False
+                if r_.get("k") == "Index" and field_chain(r_["e"]) == ("self", ["data"]):
+                    ix = unwrap(r_["idx"])
+                    st = [f["e"] for f in ix.get("fields", []) if f["name"] == "start"] if ix.get("k") == "Struct" else []
+                    en = [f for f in ix.get("fields", []) if f["name"] == "end"] if ix.get("k") == "Struct" else [1]
+                    if st and not en and path_local(st[0]) and path_local(st[0])[1] in min_lids:
+                        by_min = True
+                        ok_idx.add(id(r_))
+                if not (pl and pl[1] in split_lids) and not by_min:
                     idx.append(a)
+        idx = [n for n in idx if id(n) not in ok_idx]
         if not idx:
             rep.holds("R-CONT", key, loc(fn.raw), "skip crosses fragments without consuming a flag byte")
         else:
